@@ -145,7 +145,7 @@ def run(ck, rng, tier):
                 bad = ("r2_formula", "reported R2 %s vs 1 - RSS/TSS %s" % (r2, 1 - rss / tss))
             if bad is None and ((r2 < -1e-9) | (r2 > 1 + 1e-9)).any():
                 bad = ("r2_range", "R2 outside [0,1]: %s" % r2)
-            if bad is None and (np.abs(np.array(o["sdec"]) - np.sqrt(rss / n)) > 1e-7 * (1 + np.sqrt(rss / n))).any():
+            if bad is None and (np.abs(np.array(o["sdec"]) - np.sqrt(rss / n)) > 1e-7 * (1 + np.sqrt(rss / n)) + 1e-9 * np.abs(Y).max()).any():
                 bad = ("sdec_formula", "reported SDEC %s vs sqrt(RSS/n) %s" % (o["sdec"], np.sqrt(rss / n)))
             if bad:
                 ck.fail("MLR", bad[0], bad[1] + " (X %dx%d, ny %d, cond %g)" % (n, m, ny, cond), {"X": X.tolist(), "Y": Y.tolist()})
